@@ -223,3 +223,66 @@ prop("C20",
      trusted_base=["dataclasses.fields reflects the data model"],
      assumptions=["composition lemmas A.1/A.5 (paper)"],
      unverified_surroundings=["_recursively_get_all_users (queue loop)"])
+
+prop("C01",
+     level="proof",
+     level_text=(
+         "PARTIAL claim, front half only: deductive proof that every "
+         "expression-building public function (operators with broadcasting "
+         "and scalars both ways, comparisons, logical ops, where/maximum/"
+         "minimum, math functions, astype, reductions over every axis "
+         "subset, full/zeros/eye, pad, broadcast_to) and every lowering rule "
+         "(C02) returns an IndexLambda whose denotation is NumPy's pointwise "
+         "definition for ALL operand values, axis lengths and indices."),
+     level_note=(
+         "NOT decided: that CodeGenMapper / InlinedExpressionGenMapper / "
+         "add_store / loopy / the C compiler execute that denotation, that "
+         "code generation never fails and is order-independent (the "
+         "observable is executed loopy code; no contract within reach "
+         "expresses it -- DESIGN §7). Exact arithmetic: casts to the result "
+         "dtype are read as identity; floating-point rounding out of scope."),
+     technique="contract-based deductive verification: symbolic execution of "
+               "the real source to per-path VCs, discharged by z3",
+     design_ref="DESIGN.md §6 C01",
+     explanation="see contracts/c01_builders.py and c02_lowering.py",
+     structural_bound="rank<=3, <=3 operands, the listed broadcast patterns",
+     trusted_base=["index-lambda semantics (pyvc/den.py)",
+                   "NumPy-definition spec functions in the contracts"],
+     assumptions=["exact arithmetic; casts value-preserving; no overflow"],
+     unverified_surroundings=[
+         "pytato.target.loopy.codegen, pytato.codegen.CodeGenPreprocessor, "
+         "loopy, the C compiler (back half of the property)"])
+
+prop("C03",
+     level="proof",
+     level_text=(
+         "Deductive proof for shapes: every constructor / operator that "
+         "returns normally was accepted by NumPy's rule (broadcasting, axis "
+         "range, index range) and its eagerly inferred .shape equals NumPy's "
+         "for ALL axis lengths and parameters, with .shape/.ndim evaluated in "
+         "the same run (rejected when built, not later). Dtypes: the plumbing "
+         "is covered by an exhaustive finite run-time contract against NumPy "
+         "itself over the property's complete dtype x operator x scalar-kind "
+         "product (bounded stand-in, not counted as proved)."),
+     level_note=(
+         "Over-rejection by pytato is allowed by the statement and not "
+         "flagged. NumPy's accept/shape rules are spec functions written from "
+         "its documentation and validated against NumPy on samples. The "
+         "dtype table is NumPy's C code: executed, not deduced."),
+     technique="contract-based deductive verification (shapes) + exhaustive "
+               "finite run-time contract against NumPy (dtypes, bounded)",
+     design_ref="DESIGN.md §6 C03",
+     explanation="see contracts/c01_builders.py, c02_lowering.py, "
+                 "c03_validation.py, c03_dtypes.py",
+     structural_bound="rank<=3; every axis argument in [-ndim-1, ndim+1]",
+     trusted_base=["NumPy itself as dtype oracle (installed version)"],
+     assumptions=[],
+     unverified_surroundings=["numpy.result_type / promote_types (C code)"])
+
+
+def _c03_dtypes(tier, seed):
+    from contracts.c03_dtypes import dtype_table
+    return dtype_table(tier, seed)
+
+
+EXTRAS.setdefault("C03", []).append(_c03_dtypes)
